@@ -331,6 +331,109 @@ func checkC19(w *World, r *Report) {
 		}
 	})
 
+	r.Rule("R19.9", "encoders and decoders keep nothing between calls: the packages data/encoding and data/datanode declare no package-level variable that can hold mutable state (pools, caches, buffers, maps); the matcher is exercised on package xpath, which has some", 2)
+	r.guard("R19.9", func() {
+		count := func(key string, report bool) int {
+			n := 0
+			sp := w.SSAPkg(key)
+			for name, m := range sp.Members {
+				g, ok := m.(*ssa.Global)
+				if !ok || strings.HasPrefix(name, "init$") || name == "_" {
+					continue
+				}
+				t := g.Type().(*types.Pointer).Elem()
+				mutable := pointerLike(t)
+				if st, ok := t.Underlying().(*types.Struct); ok && st.NumFields() > 0 {
+					mutable = true // sync.Pool, sync.Map, bytes.Buffer, sync.Mutex …
+				}
+				if _, isIface := t.Underlying().(*types.Interface); isIface && (name == "_" || strings.HasPrefix(name, "_")) {
+					mutable = false
+				}
+				if !mutable {
+					continue
+				}
+				n++
+				if report {
+					r.Fail("R19.9", key+"."+name, g.Pos(), "package-level variable of a mutable kind ("+t.String()+"): bytes or trees handed to one caller can be changed by the next call (e.g. a pooled output buffer that the returned slice aliases)")
+				}
+			}
+			return n
+		}
+		control := count("xpath", false)
+		r.Check(control > 0, "R19.9", "matcher control: package xpath", token.NoPos, fmt.Sprintf("%d mutable package-level variables recognised", control), "the matcher recognises no package-level state at all")
+		k := count("data/encoding", true) + count("data/datanode", true)
+		if k == 0 {
+			r.OK("R19.9", "data/encoding, data/datanode: no package-level state", token.NoPos, "no variable of a mutable kind")
+		}
+	})
+
+	r.Rule("R19.10", "decoded text is stored verbatim: the XML reader's values are the elements' character data itself and the JSON reader's string case returns the decoded string itself — no trimming, case folding or other rewriting between the token and the value the schema validates", 3)
+	r.guard("R19.10", func() {
+		xf := w.SSAFunc(w.Method("data/encoding", "unmarshaledXML", "values"))
+		if xf == nil {
+			panic(undecided{"unmarshaledXML.values"})
+		}
+		chardata := w.Field("data/encoding", "unmarshaledXML", "Chardata")
+		isChar := func(v ssa.Value) bool {
+			for {
+				switch x := v.(type) {
+				case *ssa.Convert:
+					v = x.X
+					continue
+				case *ssa.ChangeType:
+					v = x.X
+					continue
+				}
+				break
+			}
+			u, ok := v.(*ssa.UnOp)
+			if !ok || u.Op != token.MUL {
+				return false
+			}
+			fa, ok := u.X.(*ssa.FieldAddr)
+			return ok && isFieldAddrOf(fa, chardata)
+		}
+		n := 0
+		for _, b := range xf.Blocks {
+			for _, in := range b.Instrs {
+				st, ok := in.(*ssa.Store)
+				if !ok {
+					continue
+				}
+				ia, ok := st.Addr.(*ssa.IndexAddr)
+				if !ok {
+					continue
+				}
+				if bt, ok := st.Val.Type().Underlying().(*types.Basic); !ok || bt.Kind() != types.String {
+					continue
+				}
+				_ = ia
+				n++
+				r.Check(isChar(st.Val), "R19.10", fmt.Sprintf("XML values(): stored value #%d", n), st.Pos(), "the element's Chardata itself", "the XML reader stores `"+st.Val.String()+"`, not the character data as read: leading/trailing blanks (or other rewritten characters) are lost, so XML does not round-trip and a value the type rejects is silently altered into an accepted one")
+			}
+		}
+		if n < 2 {
+			r.Fail("R19.10", "XML values()", xf.Pos(), "fewer value stores than expected")
+		}
+		// JSON: case string returns the asserted value itself
+		df := w.SSAFunc(w.Func("data/encoding", "decodeValue"))
+		okJ := false
+		for _, b := range df.Blocks {
+			if ret, ok := b.Instrs[len(b.Instrs)-1].(*ssa.Return); ok && len(ret.Results) == 2 {
+				v := ret.Results[0]
+				if ex, ok := v.(*ssa.Extract); ok {
+					v = ex.Tuple
+				}
+				if ta, ok := v.(*ssa.TypeAssert); ok {
+					if bt, ok := ta.AssertedType.Underlying().(*types.Basic); ok && bt.Kind() == types.String {
+						okJ = true
+					}
+				}
+			}
+		}
+		r.Check(okJ, "R19.10", "JSON decodeValue: string case", df.Pos(), "returns the decoded string itself", "the JSON reader rewrites string values before they are validated and stored")
+	})
+
 	r.Rule("R19.5", "the JSON writer emits well-formed, faithfully escaped text: every string-like value goes through json.Marshal (no hand-written quoting), and in every arm of the child encoder the '[' / '{' written are closed on every path", 6)
 	r.guard("R19.5", func() {
 		wv := w.Method("data/encoding", "JSONWriter", "writeValue")
